@@ -6,6 +6,7 @@ import numpy as np
 
 import common as C
 import pipegen as G
+from gwcs import coordinate_frames as cf
 from gwcs import utils as gu
 from gwcs import wcs as gw
 
@@ -103,6 +104,21 @@ def impl(case):
             out["corr_shape"] = list(np.shape(nw.axis_correlation_matrix))
         except Exception as e:
             out["corr_err"] = C.exc_enum(e)
+        # the same derivation on a unit-carrying WCS: the values interface of the derived WCS equals its forward evaluation
+        try:
+            from astropy import units as _u
+            from astropy.modeling import models as _m
+            det = cf.CoordinateFrame(naxes=3, axes_type=("SPATIAL",) * 3, axes_order=(0, 1, 2), name="detector", unit=(_u.pix,) * 3)
+            wo = cf.CoordinateFrame(naxes=3, axes_type=("SPATIAL",) * 3, axes_order=(0, 1, 2), name="world", unit=(_u.m,) * 3)
+            tq = (_m.Shift(1 * _u.pix) & _m.Shift(2 * _u.pix) & _m.Shift(3 * _u.pix) |
+                  _m.Multiply(1 * _u.m / _u.pix) & _m.Multiply(100 * _u.cm / _u.pix) & _m.Multiply(0.5 * _u.m / _u.pix))
+            wq = gw.WCS(tq, det, wo).fix_inputs({case["axis"]: 2.5 * _u.pix})
+            pts = (1.25, -3.0)
+            ref = [r.to_value(_u.m) for r in wq(*[p * _u.pix for p in pts])]
+            got = wq.pixel_to_world_values(*pts)
+            out["units_fixed"] = "ok" if np.allclose(got, ref, rtol=1e-13, atol=0) else "values %s, forward evaluation %s" % (list(got), ref)
+        except Exception as e:
+            out["units_fixed"] = "raised %s: %s" % (type(e).__name__, str(e)[:80])
         return out
     # api
     w = _build(case)
@@ -255,6 +271,8 @@ def _oracle(case, res):
                         % (res["pixel_n_dim"], res["n_inputs"], res.get("corr_err", res.get("corr_shape")))))
         if res["world_n_dim"] != res["n_outputs"]:
             out.append(("ndim", "world_n_dim %s != n_outputs %s" % (res["world_n_dim"], res["n_outputs"])))
+        if res.get("units_fixed", "ok") != "ok":
+            out.append(("fixed_units", "pixel_to_world_values of a unit-carrying WCS derived with fix_inputs: %s" % res["units_fixed"]))
         return out
     if res.get("dims_only"):
         if res["pixel_n_dim"] != res["nin"] or res["world_n_dim"] != res["nout"]:
